@@ -89,6 +89,67 @@ func lenBounds(blk *ssa.BasicBlock, base ssa.Value) IntervalSet {
 	return cur
 }
 
+// valBounds: interval of an integer value implied by the branch conditions that dominate blk.
+func valBounds(blk *ssa.BasicBlock, v ssa.Value) IntervalSet {
+	strip := func(x ssa.Value) ssa.Value {
+		for {
+			switch y := x.(type) {
+			case *ssa.Convert:
+				if isIntType(y.X.Type()) {
+					x = y.X
+					continue
+				}
+			case *ssa.ChangeType:
+				x = y.X
+				continue
+			}
+			return x
+		}
+	}
+	base := strip(v)
+	cur := fullSet(v.Type())
+	child := blk
+	for d := blk.Idom(); d != nil; child, d = d, d.Idom() {
+		ifi, ok := d.Instrs[len(d.Instrs)-1].(*ssa.If)
+		if !ok {
+			continue
+		}
+		branch := -1
+		dom0 := (d.Succs[0] == child || dominates(d.Succs[0], child)) && len(d.Succs[0].Preds) == 1
+		dom1 := (d.Succs[1] == child || dominates(d.Succs[1], child)) && len(d.Succs[1].Preds) == 1
+		if dom0 && !dom1 {
+			branch = 0
+		} else if dom1 && !dom0 {
+			branch = 1
+		}
+		if branch < 0 {
+			continue
+		}
+		bo, ok := ifi.Cond.(*ssa.BinOp)
+		if !ok {
+			continue
+		}
+		op := bo.Op
+		var k int64
+		var okc bool
+		switch {
+		case strip(bo.X) == base:
+			k, okc = constInt(bo.Y)
+		case strip(bo.Y) == base:
+			k, okc = constInt(bo.X)
+			op = flipOp(op)
+		}
+		if !okc {
+			continue
+		}
+		if branch == 1 {
+			op = negOp(op)
+		}
+		cur = cur.Intersect(satisfying(op, k))
+	}
+	return cur
+}
+
 func dominates(a, b *ssa.BasicBlock) bool {
 	for x := b; x != nil; x = x.Idom() {
 		if x == a {
@@ -513,6 +574,10 @@ func classifyIndex(p *Program, fn *ssa.Function, in ssa.Instruction, base, idx s
 		}
 		if ct, ok := idx.(*ssa.ChangeType); ok {
 			it = ct.X.Type()
+		}
+		if vb := valBounds(in.Block(), idx); vb.Intersect(complement(IntervalSet{{0, at.Len() - 1}})).Empty() {
+			s.ok, s.why = true, "index inside the table by a dominating range check"
+			return s
 		}
 		if callersPassConstantsInRange(p, fn, idx, at.Len()) {
 			s.ok, s.why = true, "every static caller passes a constant inside the table"
